@@ -52,7 +52,7 @@
      "every instance holds every defaulted attribute" that is not proved). *)
 From Coq Require Import List ZArith Bool Arith Lia.
 From SC Require Import Base.Res Inst.Heap Inst.ClassTable Inst.Model Inst.Framed Inst.FrameProofs
-  Inst.Reach Inst.SepProofs Props.C01 Props.C02 Inst.SepMore.
+  Inst.Reach Inst.SepProofs Props.C01 Props.C02 Inst.AtomicProofs Inst.SepMore Inst.SepMore2.
 Import ListNotations.
 Open Scope nat_scope.
 
@@ -325,6 +325,89 @@ Example C08_constructor_installs_defaults_nonvacuous :
 Proof. exact construct_holds_nonvacuous. Qed.
 
 
+(* ------------------------------------------------------------------ *)
+(* C08_reset_fresh in its FINAL-HEAP form (proofs: coq/Inst/SepMore2.v).
+   `del obj.a` on a writable instance, for an attribute a WITH a default (mutable literal,
+   Attr(default=), default_factory, override) that nothing is invalidated by: in the heap the
+   call ends with, the receiver's dictionary is the old one with a := v where
+     - v is not a sentinel, and is a scalar or a reference to a cell allocated by the call;
+     - every cell reachable from v in the final heap was allocated by the call: v is not the
+       class-level default object and shares no cell with it, with a constructor argument, with
+       another instance or with anything else that existed before;
+     - no other pre-existing cell was written (and every other attribute of obj is untouched).
+   Guards: no do_not_copy=True classes, no do_not_copy attributes, scalar_table, tgb. *)
+Definition no_dnc_attrs (ct : ctable) : Prop :=
+  forall k sp, In k ct -> In sp (c_attrs k) -> a_dnc sp = false.
+
+Theorem C08_del_fresh_final_heap :
+  forall ct, no_dnc_classes ct -> scalar_table ct -> tgb ct = true -> no_dnc_attrs ct ->
+  forall s l a c d k sp r s',
+    nth_error (heap s) l = Some (OInst c d) -> lookup_cls ct c = Some k -> lookup_attr k a = Some sp ->
+    (c_frozen k = false \/ initializing d = true) ->
+    has_default k sp = true -> no_dependants k a ->
+    exec ct XFUEL (KDelAttr l a false false) s = (Ok r, s') ->
+    exists v,
+      nth_error (heap s') l = Some (OInst c (assoc_set a v d)) /\
+      is_sentinel v = false /\ freshv (length (heap s)) v /\
+      (forall lv l', v = VRef lv -> reach (heap s') lv l' -> length (heap s) <= l') /\
+      (forall l', l' < length (heap s) -> l' <> l -> nth_error (heap s') l' = nth_error (heap s) l').
+Proof. intros ct H1 H2 H3 H4. exact (del_final_heap ct H1 H2 H3 H4). Qed.
+
+(* the same for obj.reset_<a>(_inplace=True) *)
+Theorem C08_reset_inplace_fresh_final_heap :
+  forall ct, no_dnc_classes ct -> scalar_table ct -> tgb ct = true -> no_dnc_attrs ct ->
+  forall s l a c d k sp h r s',
+    nth_error (heap s) l = Some (OInst c d) -> lookup_cls ct c = Some k -> lookup_attr k a = Some sp ->
+    (c_frozen k = false \/ initializing d = true) ->
+    has_default k sp = true -> no_dependants k a ->
+    h_inplace h = true -> h_if h = true ->
+    run_helper ct l (HReset a) h s = (Ok r, s') ->
+    r = VRef l /\
+    exists v,
+      nth_error (heap s') l = Some (OInst c (assoc_set a v d)) /\
+      is_sentinel v = false /\ freshv (length (heap s)) v /\
+      (forall lv l', v = VRef lv -> reach (heap s') lv l' -> length (heap s) <= l') /\
+      (forall l', l' < length (heap s) -> l' <> l -> nth_error (heap s') l' = nth_error (heap s) l').
+Proof. intros ct H1 H2 H3 H4. exact (reset_inplace_final_heap ct H1 H2 H3 H4). Qed.
+
+(* in particular: the value now stored is not the class-level default object, and that object is
+   not reachable from it *)
+Corollary C08_reset_value_is_not_the_class_default :
+  forall ct, no_dnc_classes ct -> scalar_table ct -> tgb ct = true -> no_dnc_attrs ct ->
+  forall s l a c d k sp r s' ld,
+    nth_error (heap s) l = Some (OInst c d) -> lookup_cls ct c = Some k -> lookup_attr k a = Some sp ->
+    (c_frozen k = false \/ initializing d = true) ->
+    has_default k sp = true -> no_dependants k a ->
+    class_default k a = VRef ld -> ld < length (heap s) ->
+    exec ct XFUEL (KDelAttr l a false false) s = (Ok r, s') ->
+    exists v d', nth_error (heap s') l = Some (OInst c d') /\ assoc a d' = Some v /\
+      v <> VRef ld /\ forall lv, v = VRef lv -> ~ reach (heap s') lv ld.
+Proof.
+  intros ct H1 H2 H3 H4 s l a c d k sp r s' ld Hl Hc Ha Hfz Hd Hn Hcd Hld Hrun.
+  destruct (del_final_heap ct H1 H2 H3 H4 s l a c d k sp r s' Hl Hc Ha Hfz Hd Hn Hrun)
+    as (v & Hv1 & Hv2 & Hv3 & Hv4 & _).
+  exists v, (assoc_set a v d). split; [exact Hv1|]. split.
+  - apply assoc_set_get.
+  - split.
+    + intro E. subst v. simpl in Hv3. lia.
+    + intros lv -> R. specialize (Hv4 lv ld eq_refl R). lia.
+Qed.
+
+(* non-vacuity: the class of C08_unchanged_keyword_refuted; `del obj.xs` after construction *)
+Example C08_del_fresh_final_heap_nonvacuous :
+  no_dnc_classes exu_ct /\ scalar_table exu_ct /\ tgb exu_ct = true /\ no_dnc_attrs exu_ct /\
+  (let s := mkst [OList [VInt 1]; OInst 2 [(50, VRef 2)]; OList [VInt 1; VInt 5]] 0 None in
+   let '(r, s') := exec exu_ct XFUEL (KDelAttr 1 50 false false) s in
+   r = Ok (VRef 1) /\
+   heap s' = [OList [VInt 1]; OInst 2 [(50, VRef 3)]; OList [VInt 1; VInt 5]; OList [VInt 1]]).
+Proof.
+  split; [|split; [|split; [reflexivity|split]]].
+  - intros c k H. unfold lookup_cls in H. apply find_some in H. destruct H as [[<-|[]] _]. reflexivity.
+  - intros k [<-|[]]. simpl. split; [|split; exact I]. intros sp [<-|[]]. simpl. auto.
+  - intros k sp [<-|[]] [<-|[]]. reflexivity.
+  - vm_compute. split; reflexivity.
+Qed.
+
 Print Assumptions C08_construct_fresh.
 Print Assumptions C08_default_is_fresh.
 Print Assumptions C08_reset_keeps_defaults_isolated.
@@ -341,3 +424,7 @@ Print Assumptions C08_constructor_installs_defaults.
 Print Assumptions C08_holds_defaults_history.
 Print Assumptions C08_unchanged_keyword_refuted.
 Print Assumptions C08_constructor_installs_defaults_nonvacuous.
+Print Assumptions C08_del_fresh_final_heap.
+Print Assumptions C08_reset_inplace_fresh_final_heap.
+Print Assumptions C08_reset_value_is_not_the_class_default.
+Print Assumptions C08_del_fresh_final_heap_nonvacuous.
